@@ -1,6 +1,7 @@
 import Ts.Order
 import Ts.DeploySpec
 import Ts.ResolveSound
+import Ts.ResolveComplete
 
 /-! # C10 — property theorems (statements only; proofs live in the family libraries)
 
@@ -54,6 +55,14 @@ theorem resolveU_sound :
     (∀ q ∈ items, ∀ k ∈ q.requires, ∃ p ∈ items, k ∈ p.provides) ∧
     (∀ q ∈ items, ∀ k ∈ q.requires, ∀ p ∈ items, k ∈ p.provides → Before order p.name q.name) :=
   @Ts.resolveU_sound
+
+/-- the converse: `resolve` refuses only what it must - when every requirement has a provider and the provider/requirement
+edges (item -> entity -> item) have no cycle, it succeeds -/
+theorem resolveU_complete :
+    ∀ (items : List RItem) (hw : WFItems items)
+    (hsat : ∀ q ∈ items, ∀ k ∈ q.requires, ∃ p ∈ items, k ∈ p.provides) (hacyc : Ranked (depEdges items)),
+    ∃ order, resolveU items = .ok order :=
+  @Ts.resolveU_complete
 
 /-- the premises are decided by a checker the driver runs on every compared case -/
 theorem wfItemsCheck_sound :
